@@ -1,9 +1,8 @@
-(* C09 (continued) - Semphore (through the cancel-bit overlay) and Condvar.  See Properties/C09.v for the overview. *)
+(* C09 (continued) - Semphore (through the cancel-bit overlay; Condvar is in C09_condvar.v).  See Properties/C09.v for the overview. *)
 From Coq Require Import List Arith ZArith Bool.
 Import ListNotations.
 Require MayV.Base.CancelOverlay.
-Require MayV.Sync.SemModel MayV.Sync.SemInv MayV.Sync.CancelSem.
-Require MayV.Sync.CondvarModel MayV.Sync.CondvarInv MayV.Sync.CondvarThm MayV.Sync.CancelCondvar.
+Require MayV.Sync.SemModel MayV.Sync.SemInv MayV.Sync.CancelSem MayV.Sync.SemLive MayV.Sync.SemLiveThm.
 Module OV := MayV.Base.CancelOverlay.
 
 (* ================================================================================================ Semphore *)
@@ -73,67 +72,36 @@ Theorem C09_sem_wakeup_never_pops_empty_after_cancel :
   forall i os a, 0 <= i -> SOReach i os -> apc (A (base os) a) = K1 -> q (base os) <> [].
 Proof. exact wakeup_never_pops_empty_after_cancel. Qed.
 Print Assumptions C09_sem_wakeup_never_pops_empty_after_cancel.
+(* exactly once, as a count (second overlay of C10, Sync/SemLive.v: per blocker, rp = re-post decisions, sc = successful
+   returns, fl = the owner's wait failed - timed out or was CANCELLED - on it): a permit handed to a blocker is settled at
+   most once; if the owner's wait failed on it, then - as soon as the blocker is no longer pending, in particular at
+   quiescence - it has been re-posted exactly once and never consumed; nothing is re-posted without a hand-off *)
+Theorem C09_sem_handoff_settled_at_most_once :
+  forall i s o b, 0 <= i -> MayV.Sync.SemLive.ReachL i s o -> (MayV.Sync.SemLive.rp o b + MayV.Sync.SemLive.sc o b <= 1)%nat.
+Proof. exact MayV.Sync.SemLiveThm.handoff_settled_at_most_once. Qed.
+Print Assumptions C09_sem_handoff_settled_at_most_once.
+
+Theorem C09_sem_failed_waiters_permit_reposted_exactly_once :
+  forall i s o b, 0 <= i -> MayV.Sync.SemLive.ReachL i s o ->
+  MayV.Sync.SemLive.fl o b = true -> unp (Bk s b) = true -> ~ In b (giv s) -> ~ In b (pre s) ->
+  MayV.Sync.SemLive.rp o b = 1%nat /\ MayV.Sync.SemLive.sc o b = O.
+Proof. exact MayV.Sync.SemLiveThm.timed_out_handoff_reposted_exactly_once. Qed.
+Print Assumptions C09_sem_failed_waiters_permit_reposted_exactly_once.
+
+Theorem C09_sem_failed_waiters_permit_reposted_at_quiescence :
+  forall i s o b, 0 <= i -> MayV.Sync.SemLive.ReachL i s o -> MayV.Sync.SemLiveThm.Quiescent s ->
+  MayV.Sync.SemLive.fl o b = true -> unp (Bk s b) = true -> MayV.Sync.SemLive.rp o b = 1%nat /\ MayV.Sync.SemLive.sc o b = O.
+Proof. exact MayV.Sync.SemLiveThm.timed_out_handoff_reposted_at_quiescence. Qed.
+Print Assumptions C09_sem_failed_waiters_permit_reposted_at_quiescence.
+
+Theorem C09_sem_no_repost_without_handoff :
+  forall i s o b, 0 <= i -> MayV.Sync.SemLive.ReachL i s o -> unp (Bk s b) = false ->
+  MayV.Sync.SemLive.rp o b = O /\ MayV.Sync.SemLive.sc o b = O.
+Proof. exact MayV.Sync.SemLiveThm.no_repost_without_handoff. Qed.
+Print Assumptions C09_sem_no_repost_without_handoff.
 End SEM.
 
-(* ================================================================================================ Condvar *)
-Module CONDVAR.
-Import MayV.Sync.CondvarModel MayV.Sync.CondvarInv MayV.Sync.CondvarThm MayV.Sync.CancelCondvar.
-Open Scope Z_scope.
 
-(* (iii) *)
-Theorem C09_condvar_canceled_verdict_needs_cancel :
-  forall s a s', Reach s -> apc (A s a) = R2 -> step s (Choose a true) = Some s' ->
-  ccan (A s a) = true /\ aco (A s a) = true /\ apc (A s' a) = C1.
-Proof. exact canceled_verdict_needs_cancel. Qed.
-Print Assumptions C09_condvar_canceled_verdict_needs_cancel.
-
-Theorem C09_condvar_cancel_reason_needs_cancel :
-  forall s a, Reach s -> post_park (A s a) = true -> rcan (A s a) = true -> ccan (A s a) = true /\ aco (A s a) = true.
-Proof. exact cancel_reason_needs_cancel. Qed.
-Print Assumptions C09_condvar_cancel_reason_needs_cancel.
-
-Theorem C09_condvar_uncancelled_never_canceled :
-  forall s a, Reach s -> ccan (A s a) = false \/ aco (A s a) = false -> apc (A s a) <> C1 /\ apc (A s a) <> Dead.
-Proof. exact uncancelled_never_canceled. Qed.
-Print Assumptions C09_condvar_uncancelled_never_canceled.
-
-(* (i) *)
-Theorem C09_condvar_cancelled_waiter_not_parked :
-  forall s a, Quiescent s -> aco (A s a) = true -> ccan (A s a) = true -> apc (A s a) <> WW.
-Proof. exact cancelled_waiter_not_parked. Qed.
-Print Assumptions C09_condvar_cancelled_waiter_not_parked.
-
-(* (ii) the notification given to a waiter on the error path (Timeout or Canceled: the same code) is passed on exactly once *)
-Theorem C09_condvar_cancelled_waiter_forwards_notification :
-  forall s a s', Reach s -> apc (A s a) = E1 -> unp (Bk s (ab (A s a))) = true -> step s (Step a) = Some s' ->
-  bset (Bk s (ab (A s a))) = O /\ bset (Bk s' (ab (A s a))) = 1%nat /\ In a (owe s') /\ ~ In (ab (A s a)) (giv s') /\ apc (A s' a) = K1.
-Proof. exact cancelled_waiter_forwards_notification. Qed.
-Print Assumptions C09_condvar_cancelled_waiter_forwards_notification.
-
-Theorem C09_condvar_cancelled_waiter_forwards_notification_recheck :
-  forall s a s', Reach s -> apc (A s a) = E4 -> rel (Bk s (ab (A s a))) = true -> step s (Step a) = Some s' ->
-  bset (Bk s (ab (A s a))) = O /\ bset (Bk s' (ab (A s a))) = 1%nat /\ In a (owe s') /\ ~ In (ab (A s a)) (giv s') /\ apc (A s' a) = K1.
-Proof. exact cancelled_waiter_forwards_notification_recheck. Qed.
-Print Assumptions C09_condvar_cancelled_waiter_forwards_notification_recheck.
-
-Theorem C09_condvar_notification_settled_at_most_once :
-  forall s b, Reach s -> (bset (Bk s b) <= 1)%nat /\ (In b (giv s) <-> unp (Bk s b) = true /\ bset (Bk s b) = O).
-Proof. exact notification_settled_at_most_once. Qed.
-Print Assumptions C09_condvar_notification_settled_at_most_once.
-
-(* (ii) the Canceled exit re-acquires the mutex (cancel disabled), releases it unpoisoned and only then unwinds; the dead
-   waiter was a cancelled coroutine and owns nothing *)
-Theorem C09_condvar_canceled_wait_releases_mutex_unpoisoned :
-  forall s a s', Reach s -> apc (A s a) = C1 -> step s (Step a) = Some s' ->
-  mx s = Some a /\ mx s' = None /\ pois s' = pois s /\ apc (A s' a) = Dead.
-Proof. exact canceled_wait_releases_mutex_unpoisoned. Qed.
-Print Assumptions C09_condvar_canceled_wait_releases_mutex_unpoisoned.
-
-Theorem C09_condvar_dead_waiter_was_cancelled_and_holds_nothing :
-  forall s a, Reach s -> apc (A s a) = Dead -> ccan (A s a) = true /\ aco (A s a) = true /\ mx s <> Some a.
-Proof. exact dead_waiter_was_cancelled_and_holds_nothing. Qed.
-Print Assumptions C09_condvar_dead_waiter_was_cancelled_and_holds_nothing.
-End CONDVAR.
 
 (* ================================================================================================ non-vacuity *)
 Example C09_ex_sem_cancelled_waiter_with_permit :
@@ -145,17 +113,4 @@ Example C09_ex_sem_cancelled_waiter_with_permit :
     MayV.Sync.SemModel.apc (MayV.Sync.SemModel.A (OV.base os) 2%nat) = MayV.Sync.SemModel.WW /\
     MayV.Sync.SemModel.unp (MayV.Sync.SemModel.Bk (OV.base os) 1%nat) = true.
 Proof. exact MayV.Sync.CancelSem.cancelled_waiter_with_permit_somewhere. Qed.
-
-Example C09_ex_condvar_cancelled_waiter_forwards :
-  exists s, MayV.Sync.CondvarModel.run_strict MayV.Sync.CondvarModel.init MayV.Sync.CancelCondvar.sch_cancel_forward = Some s /\
-    MayV.Sync.CondvarModel.Reach s /\
-    MayV.Sync.CondvarModel.apc (MayV.Sync.CondvarModel.A s 0%nat) = MayV.Sync.CondvarModel.Dead /\
-    MayV.Sync.CondvarModel.ares (MayV.Sync.CondvarModel.A s 0%nat) = 2%nat /\
-    MayV.Sync.CondvarModel.ccan (MayV.Sync.CondvarModel.A s 0%nat) = true /\
-    MayV.Sync.CondvarModel.nuser s = 1%Z /\ MayV.Sync.CondvarModel.nret s = 1%Z /\ MayV.Sync.CondvarModel.fnone s = 0%Z /\
-    MayV.Sync.CondvarModel.ares (MayV.Sync.CondvarModel.A s 1%nat) = 0%nat /\
-    MayV.Sync.CondvarModel.mx s = Some 1%nat /\ MayV.Sync.CondvarModel.pois s = false /\
-    MayV.Sync.CondvarModel.bset (MayV.Sync.CondvarModel.Bk s 1%nat) = 1%nat /\
-    MayV.Sync.CondvarModel.bset (MayV.Sync.CondvarModel.Bk s 2%nat) = 1%nat.
-Proof. exact MayV.Sync.CancelCondvar.cancel_forward_somewhere. Qed.
 
